@@ -18,7 +18,6 @@ import os
 import random
 import shutil
 import time
-from pathlib import Path
 from types import SimpleNamespace
 
 from checks import _batchdb as B
@@ -95,10 +94,6 @@ def run_tlc_api(ctx, p, invariants=INV, properties=PROPS, *, dump=True, cont=Fal
     cfg = B.mc_cfg(p, B.ALL_AVOID, invariants, properties).replace("INIT Init", "INIT SInit" if sim else "INIT DInit") \
         .replace("NEXT Next", "NEXT SNext" if sim else "NEXT DNext")
     h = B.spec_hash()
-    overlay = os.environ.get("VERIF_DRIVERAPI_SPECS")          # development only: specification modules taken from another directory
-    if overlay:
-        for f in sorted(Path(overlay).glob("*.tla")):
-            h.update(f.read_bytes())
     for s in (mod, cfg, repr((dump, cont, simulate, depth))):
         h.update(s.encode())
     cache = BUILD / "tlc_cache" / f"{p.name}-{tag}-{h.hexdigest()[:20]}"
@@ -110,9 +105,6 @@ def run_tlc_api(ctx, p, invariants=INV, properties=PROPS, *, dump=True, cont=Fal
     # TLC runs in a directory of this process; a finished exhaustive run is moved into the cache in one step (other checks may
     # run the same stage at the same time)
     wd = tlc.prepare_dir(ctx.build / f"driverapi_{p.name}_{tag}_{os.getpid()}", ["batchdb"], {f"{name}.tla": mod, f"{name}.cfg": cfg})
-    if overlay:
-        for f in Path(overlay).glob("*.tla"):
-            shutil.copy(f, wd / f.name)
     res = tlc.run(wd, name, f"{name}.cfg", workers=min(ctx.workers, 8), dump="graph" if dump and simulate is None else None, cont=cont,
                   simulate=simulate, depth=depth, seed=(ctx.seed + 11) if simulate else None, timeout=3000)
     res.cached = False
@@ -820,4 +812,5 @@ def simulation_stage(ctx, p, ntraces, depth):
             ctx.violation(signature(mism), {"program": p.name, "path": mism["path"], "diff": mism["diff"]})
             break
     shutil.rmtree(prefix_dir, ignore_errors=True)
+    shutil.rmtree(wd, ignore_errors=True)
     return {"program": p.name, "traces": traces, "steps": steps, "actions": dict(seen)}
